@@ -619,6 +619,26 @@ def mutators(rng):
     add("inplace:v_ipow", lambda m, r: m.vertices.__ipow__(3))
     add("inplace:v_col_fill", lambda m, r: m.vertices.__setitem__((slice(None), 2), np.asarray(m.vertices)[:, 2] * 2.0 + 0.75))
     add("inplace:v_put", lambda m, r: m.vertices.put([0, 4], [3.25, -2.5]))
+
+    # somebody else looks at the array's hash between the edit and the mesh's next read: the
+    # array's "dirty" flag is consumed by whoever hashes it first
+    def edit_then_array_hash(m, r):
+        m.vertices[len(m.vertices) - 1, 1] += 2.75
+        m.vertices.__hash__()
+        m.faces.__hash__()
+
+    add("inplace:v_setitem+array_hashed_by_caller", edit_then_array_hash)
+
+    def edit_seen_first_by_second_owner(m, r):
+        import trimesh
+
+        # a second mesh built on the very same tracked arrays (no copy is taken for them)
+        other = trimesh.Trimesh(vertices=m.vertices, faces=m.faces, process=False)
+        _ = other.area, other.bounds, other.volume
+        m.vertices[0, 2] -= 3.5
+        _ = other.area, other.bounds  # the second owner reads (and hashes the arrays) first
+
+    add("inplace:v_setitem+second_owner_reads_first", edit_seen_first_by_second_owner)
     add("inplace:f_sort_rows_cyclic", lambda m, r: m.faces.__setitem__(Ellipsis, np.roll(np.array(m.faces), 1, axis=1)))
     add("inplace:f_setitem", lambda m, r: m.faces.__setitem__(0, np.array(m.faces[0])[::-1].copy()))
     add("inplace:f_setitem_last", lambda m, r: m.faces.__setitem__(len(m.faces) - 1, np.array(m.faces[-1])[[1, 2, 0]].copy()))
@@ -996,7 +1016,8 @@ def _workload(run, mon):
     # was cached before the edit must not be re-validated by the second call
     silent_first = [n for n, _ in muts if n in (
         "inplace:v_setitem_late", "inplace:v_imul", "inplace:f_setitem_last", "inplace:f_fliplr_all",
-        "inplace:v_imatmul", "inplace:v_put", "reassign:vertices", "reassign:faces_subset", "density_set")]
+        "inplace:v_imatmul", "inplace:v_put", "inplace:v_setitem+array_hashed_by_caller",
+        "inplace:v_setitem+second_owner_reads_first", "reassign:vertices", "reassign:faces_subset", "density_set")]
     keepers = [n for n, _ in muts if n.split(":")[0] in (
         "apply_translation", "invert", "process", "copy", "copy.copy", "fix_normals", "unmerge_vertices",
         "merge_vertices", "remove_unreferenced_vertices", "rezero", "apply_obb", "convert_units")
